@@ -101,15 +101,59 @@ def generate():
     lines = [l.strip() for l in modtxt.splitlines() if l.strip() and not l.strip().startswith("//")]
     if lines != EXPECTED_CRYPTO_MOD:
         problems.append("src/crypto/mod.rs differs from the mirrored module tree in harness/src/main.rs: %r" % lines)
-    # 2. extracted items
-    main = open(os.path.join(repo, "src/main.rs")).read()
-    item = extract_item(main, r"^fn parse_ip_netmask\s*\(")
-    out = "// GENERATED from %s/src/main.rs - do not edit\n" % repo
-    if item is None:
-        problems.append("fn parse_ip_netmask not found in src/main.rs")
-        out += "fn parse_ip_netmask(_addr: &str) -> Result<(Ipv4Addr, Ipv4Addr), String> { unimplemented!() }\n"
-    else:
-        out += item + "\n"
+    # 2. extracted items / statement slices (textual, brace matched; wrapped so that the same tokens compile)
+    def rd(f):
+        return open(os.path.join(repo, f)).read()
+    main, config, cloud = rd("src/main.rs"), rd("src/config.rs"), rd("src/cloud.rs")
+    out = "// GENERATED from %s/src/{main,config,cloud}.rs on every run - do not edit\n" % repo
+    out += "use std::cmp::{max, min};\nuse crate::util::{Duration, Time};\nuse crate::types::Mode;\n"
+
+    def need(item, what, fallback):
+        if item is None:
+            problems.append("%s not found (extraction pattern no longer matches the source)" % what)
+            return fallback
+        return item
+
+    out += need(extract_item(main, r"^fn parse_ip_netmask\s*\("), "fn parse_ip_netmask in src/main.rs",
+                "fn parse_ip_netmask(_addr: &str) -> Result<(Ipv4Addr, Ipv4Addr), String> { unimplemented!() }") + "\n\n"
+    # constants
+    for name, src, f in (("DEFAULT_PEER_TIMEOUT", config, "config.rs"), ("MAX_RECONNECT_INTERVAL", cloud, "cloud.rs")):
+        m = re.search(r"^(?:pub )?const %s: \w+ = [^;]+;" % name, src, re.M)
+        out += need(m.group(0) if m else None, "const %s in src/%s" % (name, f), "const %s: u16 = 0;" % name) + "\n"
+    # Config::get_keepalive with the two fields it reads
+    gk = extract_item(config, r"^    pub fn get_keepalive\s*\(")
+    out += "\npub struct XConfig {\n    pub keepalive: Option<Duration>,\n    pub peer_timeout: Duration,\n}\nimpl XConfig {\n"
+    out += need(gk, "Config::get_keepalive in src/config.rs", "    pub fn get_keepalive(&self) -> Duration { unimplemented!() }") + "\n}\n"
+    # GenericCloud::new: how update_freq is derived from the keepalive
+    m = re.search(r"let update_freq = config\.get_keepalive\(\) as (\w+);", cloud)
+    cast = need(m.group(1) if m else None, "update_freq derivation in GenericCloud::new", "u16")
+    m2 = re.search(r"^\s*update_freq: (\w+),", cloud, re.M)
+    out += "pub type UpdateFreq = %s;\npub fn update_freq_of(config: &XConfig) -> UpdateFreq {\n    let update_freq = config.get_keepalive() as %s;\n    update_freq\n}\n" % (m2.group(1) if m2 else "u16", cast)
+    # housekeep: the announcement-interval slice
+    m = re.search(r"^( *)let min_peer_timeout = .*?self\.next_peers = now \+ [^;]*;", cloud, re.M | re.S)
+    sl = need(m.group(0) if m else None, "announcement interval slice in GenericCloud::housekeep", "let interval = 0u16; self.next_peers = now;")
+    out += ("\npub struct XPeer {\n    pub peer_timeout: u16,\n}\npub struct XCloud {\n    pub peers: smallvec::ivec::IVec<(u8, XPeer), 4>,\n"
+            "    pub update_freq: UpdateFreq,\n    pub next_peers: Time,\n}\nimpl XCloud {\n    pub fn announce_interval_slice(&mut self, now: Time) {\n"
+            + sl + "\n    }\n}\n")
+    # reconnect_to_peers: the back-off step
+    m = re.search(r"^( *)entry\.tries \+= 1;.*?entry\.next = now \+ [^;]*;", cloud, re.M | re.S)
+    sl = need(m.group(0) if m else None, "back-off slice in GenericCloud::reconnect_to_peers", "entry.next = now;")
+    out += ("\npub struct XEntry {\n    pub tries: u16,\n    pub timeout: u16,\n    pub next: Time,\n}\n"
+            "pub fn backoff_step_slice(entry: &mut XEntry, now: Time) {\n" + sl + "\n}\n")
+    # add_reconnect_peer: initial values
+    m = re.search(r"tries: (\d+),\s*timeout: (\d+),", cloud)
+    out += "pub const RECONNECT_INIT: (u16, u16) = (%s, %s);\n" % ((m.group(1), m.group(2)) if m else ("0", "0"))
+    if not m:
+        problems.append("initial reconnect entry values not found in add_reconnect_peer")
+    # GenericCloud::new: learning / broadcast flags per (mode, device type)
+    m = re.search(r"let \(learning, broadcast\) = match config\.mode \{", cloud)
+    sl = None
+    if m:
+        blk = extract_item(cloud[m.start():], r"let \(learning, broadcast\) = match config\.mode ")
+        sl = blk + ";" if blk else None
+    sl = need(sl, "learning/broadcast flag table in GenericCloud::new", "let (learning, broadcast) = (false, false);")
+    out += ("\n#[derive(Clone, Copy, PartialEq)]\npub enum Type {\n    Tun,\n    Tap,\n}\npub struct XModeCfg {\n    pub mode: Mode,\n    pub device_type: Type,\n}\n"
+            "pub fn mode_flags_slice(config: &XModeCfg) -> (bool, bool) {\n        " + sl + "\n    (learning, broadcast)\n}\n")
     write_if_changed(os.path.join(K.GEN, "extracted.rs"), out)
     # 3. playback dispatch
     hs = all_harnesses()
